@@ -49,7 +49,7 @@ INVARIANT InvCallTotal InvCallSound InvCallComplete InvCallLawsAsOperators
 INVARIANT CallEmit
 """
 # per part: cfg text, tag of the exported records, fields that hold sets of indices, constant overridden for replay
-_PARTS = {"values": (MC_CFG, "VAL", ("eq", "dc", "mkc", "mkr"), "CONSTANT Universe <- ReplayUniverse\n"),
+_PARTS = {"values": (MC_CFG, "VAL", ("eq", "dc", "mkc", "mkr", "xcoll", "xsplit"), "CONSTANT Universe <- ReplayUniverse\n"),
           "calls": (CALL_CFG, "CALLV", ("eq", "same", "dc", "mk", "bare", "kwvalues"),
                     "CONSTANT CallUniverse <- ReplayCallUniverse\n")}
 
@@ -146,18 +146,35 @@ def build(v: dict):
     if t == "Series":
         data = [build(x) for x in a[1]["a"]]
         dt = "float64" if any(x["t"] == "Float" for x in a[1]["a"]) else "int64"
-        return pd.Series(np.array(data, dtype=dt), index=pd.Index([build(x) for x in a[0]["a"]], dtype="int64"),
-                         name=v["s"])
+        return pd.Series(np.array(data, dtype=dt), index=_axis([build(x) for x in a[0]["a"]], v["n"] % 2), name=v["s"])
     if t == "DataFrame":
         cols = [build(x) for x in a[0]["a"]]
-        index = pd.Index([build(x) for x in a[1]["a"]], dtype="int64")
+        index = _axis([build(x) for x in a[1]["a"]], v["n"] % 2)
         data = {c: np.array([build(x) for x in col["a"]], dtype="int64") for c, col in zip(cols, a[2]["a"])}
-        return pd.DataFrame(data, index=index, columns=cols)
+        df = pd.DataFrame(data, index=index, columns=cols)
+        if v["n"] // 2:
+            df.columns = _axis(cols, 1)
+        return df
     if t == "Obj":
         return _CLASSES[v["s"]](*[build(x) for x in a])
     if t == "Call":
         return CallObj(v["s"], build(a[0]), build(a[1]))
     raise ValueError(t)
+
+
+def _axis(labels: list, as_range: int):
+    """The axis object that carries `labels`: encoder attribute HashKey!DataFrameR.rep (never part of the value).
+    0: a materialised Index; 1: the pandas.RangeIndex with these labels (as a slice of a bigger frame keeps it)."""
+    import pandas as pd
+
+    if not as_range:
+        return pd.Index(labels, dtype="int64") if all(isinstance(x, int) for x in labels) else pd.Index(labels)
+    step = labels[1] - labels[0] if len(labels) > 1 else 1
+    start = labels[0] if labels else 0
+    ax = pd.RangeIndex(start, start + step * len(labels), step)
+    if ax.tolist() != labels:
+        raise ValueError(f"labels {labels} are not a range")
+    return ax
 
 
 def _V(t, s="", n=0, a=()):
@@ -205,10 +222,11 @@ def unbuild(o) -> dict:
         return _V("NdArray", s=o.dtype.str, n=lay, a=[_V("Tuple", a=[unbuild(x) for x in o.shape]),
                                                 _V("Tuple", a=[unbuild(x) for x in o.flatten()])])
     if isinstance(o, pd.Series):
-        return _V("Series", s=o.name, a=[_V("Tuple", a=[unbuild(x) for x in o.index]),
+        return _V("Series", s=o.name, n=int(isinstance(o.index, pd.RangeIndex)), a=[_V("Tuple", a=[unbuild(x) for x in o.index]),
                                          _V("Tuple", a=[unbuild(x) for x in o.to_numpy()])])
     if isinstance(o, pd.DataFrame):
-        return _V("DataFrame", a=[_V("Tuple", a=[unbuild(c) for c in o.columns]),
+        return _V("DataFrame", n=int(isinstance(o.index, pd.RangeIndex)) + 2 * int(isinstance(o.columns, pd.RangeIndex)),
+                  a=[_V("Tuple", a=[unbuild(c) for c in o.columns]),
                                   _V("Tuple", a=[unbuild(x) for x in o.index]),
                                   _V("Tuple", a=[_V("Tuple", a=[unbuild(x) for x in o.iloc[:, k].to_numpy()])
                                                  for k in range(o.shape[1])])])
@@ -221,6 +239,13 @@ def _norm(v: dict) -> dict:
     if v["t"] in ("Set", "FrozenSet"):
         a = sorted(a, key=lambda x: json.dumps(x, sort_keys=True))
     return {"t": v["t"], "s": v["s"], "n": v["n"], "a": a}
+
+
+def _show_axis(labels: dict, as_range: int) -> str:
+    if not as_range:
+        return show(labels)
+    ax = _axis([x["n"] for x in labels["a"]], 1)
+    return f"RangeIndex({ax.start}, {ax.stop}, {ax.step}){show(labels)}"
 
 
 def show(v: dict) -> str:
@@ -253,9 +278,10 @@ def show(v: dict) -> str:
         lay = ["", ", layout=F", ", layout=strided-view", ", layout=transposed-view"][v["n"]]
         return f"ndarray({v['s']}, shape={show(a[0])}, {show(a[1])}{lay})"
     if t == "Series":
-        return f"Series(name={v['s']!r}, index={show(a[0])}, data={show(a[1])})"
+        return f"Series(name={v['s']!r}, index={_show_axis(a[0], v['n'] % 2)}, data={show(a[1])})"
     if t == "DataFrame":
-        return f"DataFrame(columns={show(a[0])}, index={show(a[1])}, data={show(a[2])})"
+        return (f"DataFrame(columns={_show_axis(a[0], v['n'] // 2)}, index={_show_axis(a[1], v['n'] % 2)}, "
+                f"data={show(a[2])})")
     if t == "Obj":
         return f"{v['s']}({inner})"
     if t == "PyArray":
@@ -782,6 +808,11 @@ def diff_kind(v: dict, w: dict) -> tuple[str, str]:
     t = v["t"]
     if t != w["t"]:
         return f"type:{'/'.join(sorted([t, w['t']]))}", "type"
+    if t in ("Series", "DataFrame") and (v["n"] or w["n"]):  # a RangeIndex carries the labels of one of them
+        if v["s"] == w["s"] and v["a"] == w["a"]:
+            return "label_representation_only", t  # Eq values: only the encoder attribute differs
+        d, at = diff_kind(dict(v, n=0), dict(w, n=0))
+        return (d + "(RangeIndex)" if "index" in d or "column" in d else d), at
     if t == "Series":
         if v["s"] != w["s"]:
             return "series_name", t
@@ -1074,12 +1105,18 @@ def encoder_attribute_evidence(ctx, vals: list[dict], outs: list[dict]) -> None:
     """The encoder attributes Eq ignores must really come out differently in the Python objects: Eq arrays with
     different contiguity, Eq frozensets with different iteration order (inside one interpreter: colliding small
     ints; between the interpreters: strings under another PYTHONHASHSEED)."""
-    lay = fs_in = fs_x = 0
+    lay = fs_in = fs_x = rng_eq = rng_ne = 0
     for i, r in enumerate(vals):
         t = r["v"]["t"]
+        if t in ("Series", "DataFrame") and r["v"]["n"] % 2:  # round trip checked in the child: really a RangeIndex
+            rng_ne += sum(1 for j in range(i + 1, len(vals)) if j not in r["eq"] and vals[j]["v"]["t"] == t
+                          and vals[j]["v"]["n"] % 2 and vals[j]["v"]["a"][-1] == r["v"]["a"][-1]
+                          and vals[j]["v"]["a"][0] == r["v"]["a"][0] and vals[j]["v"]["s"] == r["v"]["s"])
         for j in r["eq"]:
             if j <= i:
                 continue
+            if t in ("Series", "DataFrame") and vals[j]["v"]["n"] != r["v"]["n"]:
+                rng_eq += 1
             if t == "NdArray" and outs[0]["flags"][i] != outs[0]["flags"][j]:
                 lay += 1
             if t == "FrozenSet" and outs[0]["iter_order"][i] != outs[0]["iter_order"][j]:
@@ -1088,8 +1125,11 @@ def encoder_attribute_evidence(ctx, vals: list[dict], outs: list[dict]) -> None:
             fs_x += 1
     ctx.extra["encoder_attributes"] = {"eq_array_pairs_with_different_contiguity": lay,
                                        "eq_frozenset_pairs_iterating_differently_in_one_interpreter": fs_in,
-                                       "frozensets_iterating_differently_between_interpreters": fs_x}
-    ctx.selftest("encoder-attributes-materialised(layout, iteration order)", lay > 0 and fs_in > 0,
+                                       "frozensets_iterating_differently_between_interpreters": fs_x,
+                                       "eq_pandas_pairs_with_labels_in_a_rangeindex_and_in_a_materialised_index": rng_eq,
+                                       "pandas_pairs_equal_in_cells_with_different_rangeindex_labels": rng_ne}
+    ctx.selftest("encoder-attributes-materialised(layout, iteration order, label representation)",
+                 lay > 0 and fs_in > 0 and rng_eq > 0 and rng_ne > 0,
                  json.dumps(ctx.extra["encoder_attributes"]))
 
 
@@ -1159,6 +1199,35 @@ def _distinct(vs: list[dict]) -> list[dict]:
     return out
 
 
+def _is_range(labels: list[dict]) -> bool:
+    """the labels could be carried by a RangeIndex (generator only: HashKey!IsRange decides in WellFormed)"""
+    ns = [x["n"] for x in labels]
+    return (all(x["t"] == "Int" for x in labels)
+            and (len(ns) < 2 or (ns[1] != ns[0] and all(b - a == ns[1] - ns[0] for a, b in zip(ns, ns[1:])))))
+
+
+def _fix_rep(node: dict) -> None:
+    """drop the RangeIndex representation of an axis whose labels are no longer a range"""
+    a = node["a"]
+    rows, cols = (a[1], a[0]) if node["t"] == "DataFrame" else (a[0], None)
+    r, c = node["n"] % 2, node["n"] // 2
+    node["n"] = (r if _is_range(rows["a"]) else 0) + 2 * (c if cols is not None and _is_range(cols["a"]) else 0)
+
+
+def _gen_labels(rng, n: int) -> tuple[list[dict], int]:
+    """row labels of n rows and their representation: arbitrary small ints, the default range, or the range a slice
+    of a bigger frame keeps (other start / step); a range is carried by a RangeIndex or by a materialised Index"""
+    k = rng.random()
+    if k < 0.4:
+        labels = [_V("Int", n=rng.randrange(0, 3)) for _ in range(n)]
+    elif k < 0.65:
+        labels = [_V("Int", n=i) for i in range(n)]
+    else:
+        start, step = rng.randrange(0, 3), rng.choice([1, 1, 2, -1])
+        labels = [_V("Int", n=start + step * i) for i in range(n)]
+    return labels, int(_is_range(labels) and rng.random() < 0.6)
+
+
 def gen_value(rng, depth: int, hashable: bool = False) -> dict:
     if depth == 0 or rng.random() < 0.2:
         return _atom(rng)
@@ -1191,14 +1260,19 @@ def gen_value(rng, depth: int, hashable: bool = False) -> dict:
                                         _V("Tuple", a=[gen_value(rng, depth - 1) for _ in range(m)])])
     if kind == "Series":
         data = [_V("Float", n=rng.randrange(0, 6)) for _ in range(n)] if rng.random() < 0.3 else ints(0, 4, n)
-        index = ints(0, 3, n) if rng.random() < 0.6 else [_V("Int", n=i) for i in range(n)]
-        return _V("Series", s=rng.choice(["s", "t"]), a=[_V("Tuple", a=index), _V("Tuple", a=data)])
+        index, r = _gen_labels(rng, n)
+        return _V("Series", s=rng.choice(["s", "t"]), n=r, a=[_V("Tuple", a=index), _V("Tuple", a=data)])
     if kind == "DataFrame":
-        cols = rng.sample(["A", "B", "C"], rng.randrange(1, 3))
-        rows = rng.randrange(0, 3)
-        index = ints(0, 3, rows) if rng.random() < 0.6 else [_V("Int", n=i) for i in range(rows)]
-        return _V("DataFrame", a=[_V("Tuple", a=[_V("Str", s=c) for c in cols]), _V("Tuple", a=index),
-                                  _V("Tuple", a=[_V("Tuple", a=ints(0, 4, rows)) for _ in cols])])
+        rows = rng.randrange(0, 4)
+        index, r = _gen_labels(rng, rows)
+        if rng.random() < 0.25:  # integer column labels, as pd.DataFrame(ndarray) has them (a RangeIndex)
+            c0 = rng.randrange(0, 2)
+            cols = [_V("Int", n=c0 + i) for i in range(rng.randrange(1, 3))]
+            r += 2 * int(rng.random() < 0.6)
+        else:
+            cols = [_V("Str", s=c) for c in rng.sample(["A", "B", "C"], rng.randrange(1, 3))]
+        return _V("DataFrame", n=r, a=[_V("Tuple", a=cols), _V("Tuple", a=index),
+                                       _V("Tuple", a=[_V("Tuple", a=ints(0, 4, rows)) for _ in cols])])
     if kind in ("PA", "PB"):
         return _V("Obj", s=kind, a=[gen_value(rng, depth - 1, hashable) for _ in range(2)])
     if kind == "PyArray":
@@ -1249,7 +1323,7 @@ def mutate(rng, v: dict) -> dict:
             a[0]["a"] = [_V("Int", n=d) for d in new]
             node["n"] = 0
     elif t == "Series":
-        k = rng.randrange(4)
+        k = rng.randrange(6)
         if k == 0:
             a[0]["a"].reverse()
         elif k == 1:
@@ -1257,17 +1331,29 @@ def mutate(rng, v: dict) -> dict:
             a[1]["a"].reverse()
         elif k == 2:
             node["s"] = "t" if node["s"] == "s" else "s"
-        elif a[0]["a"]:
+        elif k == 3 and a[0]["a"]:
             a[0]["a"][0] = _V("Int", n=(a[0]["a"][0]["n"] + 1) % 3)
+        elif k == 4:  # the same labels, the other representation (RangeIndex / materialised Index): an Eq value
+            node["n"] ^= 1
+        else:  # another slice of the same bigger object: every label shifted, the representation kept
+            a[0]["a"] = [_V("Int", n=x["n"] + 1) for x in a[0]["a"]]
+        _fix_rep(node)
     elif t == "DataFrame":
-        k = rng.randrange(3)
+        k = rng.randrange(6)
         if k == 0:
             a[0]["a"].reverse()
             a[2]["a"].reverse()
         elif k == 1:
             a[1]["a"].reverse()
-        elif a[1]["a"]:
+        elif k == 2 and a[1]["a"]:
             a[1]["a"][0] = _V("Int", n=(a[1]["a"][0]["n"] + 1) % 3)
+        elif k == 3:  # the same row labels, the other representation (RangeIndex / materialised Index): an Eq value
+            node["n"] ^= 1
+        elif k == 4 and a[0]["a"][0]["t"] == "Int":  # the same for integer column labels
+            node["n"] ^= 2
+        else:  # another slice of the same bigger frame: every row label shifted, the representation kept
+            a[1]["a"] = [_V("Int", n=x["n"] + 1) for x in a[1]["a"]]
+        _fix_rep(node)
     elif t == "PyArray":
         node["s"] = "l" if node["s"] == "i" else "i"
     elif t == "Obj":
@@ -1563,6 +1649,12 @@ def run(ctx) -> None:
     ctx.selftest("tlc-exhibits-defects-of-the-coded-scheme",
                  any(r["mprob"] for r in vals) and len(diag["CODED_COLLISION"]) > 0,
                  f"not total: {sum(1 for r in vals if r['mprob'])} values, collisions: {len(diag['CODED_COLLISION'])} ordered pairs")
+    # ... and on the variant "None in place of the labels of a RangeIndex" both laws must break
+    nxc, nxs = sum(len(r["xcoll"]) for r in vals), sum(len(r["xsplit"]) for r in vals)
+    exc = next(([show(r["v"]), show(vals[r["xcoll"][0]]["v"])] for r in vals if r["xcoll"]), None)
+    exs = next(([show(r["v"]), show(vals[r["xsplit"][0]]["v"])] for r in vals if r["xsplit"]), None)
+    ctx.selftest("tlc-exhibits-defects-of-the-variant(None for a RangeIndex)", nxc > 0 and nxs > 0,
+                 f"KeySound: {nxc} ordered pairs, e.g. {exc}; KeyComplete: {nxs} ordered pairs, e.g. {exs}")
     scheme_model_evidence(ctx, vals, diag, outs)
     encoder_attribute_evidence(ctx, vals, outs)
     random_finish(ctx, preps[1], seen)
